@@ -162,7 +162,7 @@ Proof. intros [HAn HAt] [HBn HBt] HBd. rewrite in_diff_reflect.
     destruct H as [H|[H|[H|H]]].
     + destruct (cols_local g (t_name m) c m o Hcc Hmc (HBd m Hm) (or_introl H)) as [n [-> Hne]]. simpl. unfold look_col. rewrite E, HB. auto.
     + apply ciu_local in H; auto. destruct H as [n [-> Hne]]. simpl. unfold look_cons. rewrite E, HB. auto.
-    + apply (cfk_local (t_name m) (reflect_table c) m) in H; auto. destruct H as [n [-> Hne]]. simpl. unfold look_fk. rewrite E, HB. auto.
+    + rewrite cfk_reflect in H. apply (cfk_local (t_name m) c m) in H; auto. destruct H as [n [-> Hne]]. simpl. unfold look_fk. rewrite E, HB. auto.
     + destruct (cols_local g (t_name m) c m o Hcc Hmc (HBd m Hm) (or_intror H)) as [n [-> Hne]]. simpl. unfold look_col. rewrite E, HB. auto.
 Qed.
 
@@ -383,13 +383,13 @@ Proof. intros [HAn HAt] HAd Ha He k Hk. destruct m as [t|n0|t c|t c|t c|t c y|t 
     + exists (OpAddCons t kk). split; [apply Hops; simpl; auto|]. simpl. unfold is_uq. rewrite Ek. auto.
   - (* add fk *) destruct Hk as [<-|[]]. apply in_table_some in Ha. destruct Ha as [tb [Htb Hp]].
     destruct (kfind_some _ _ _ _ Htb) as [Hin Hn]. apply andb_true_iff in Hp. destruct Hp as [_ Hs]. apply negb_true_iff in Hs.
-    exists (OpAddFk t f). split; [|auto]. eapply in_diff_on_table; eauto. apply in_cfk.
+    exists (OpAddFk t f). split; [|auto]. eapply in_diff_on_table; eauto. apply in_cfk. rewrite cfk_reflect.
     unfold compare_foreign_keys. apply in_or_app. right. apply in_flat_map. exists f. cbn [with_fks t_fks t_name reflect_table].
     split; [apply in_or_app; simpl; auto|]. rewrite Hs, Hn. left; auto.
   - (* drop fk *) destruct Hk as [<-|[]]. apply in_table_some in Ha. destruct Ha as [tb [Htb Hp]].
     destruct (kfind_some _ _ _ _ Htb) as [Hin Hn]. destruct (kfind f_name n0 (t_fks tb)) as [x|] eqn:Hx; [|congruence].
     destruct (kfind_some _ _ _ _ Hx) as [Hxin Hxn]. apply negb_true_iff in Hp.
-    exists (OpDropFk t n0). split; [|auto]. eapply in_diff_on_table; eauto. apply in_cfk.
+    exists (OpDropFk t n0 (f_named x)). split; [|auto]. eapply in_diff_on_table; eauto. apply in_cfk. rewrite cfk_reflect.
     unfold compare_foreign_keys. apply in_or_app. left. apply in_flat_map. exists x. cbn [with_fks t_fks t_name reflect_table].
     split; auto. rewrite Hp, Hxn, Hn. left; auto.
 Qed.
